@@ -408,6 +408,106 @@ def borderline_projects(rng, n_random):
         x = rng.choice(cands)
         x["slice"], x["pointer"] = True, False
         out.append(("borderline:random-slice-%s" % x["loc"], p, None))
+    # a verb that differs from a supported one only by letter case: gin and echo paste the verb as a method name
+    # (`engine.GET(`), chi and fiber camel-case it, mux passes it as a string
+    for v, params, ret in (("get", [prm("id", "path", "string")], "Item"), ("Post", [prm("it", "body", "Item")], "Item"),
+                           ("dELETE", [prm("id", "path", "string")], None)):
+        route = "/a/{id}" if any(x["loc"] == "path" for x in params) else "/a"
+        one("verb-case-%s" % v, meth("M0", v, route, params, ret))
+    # ... next to conventionally spelled routes of the same controller
+    p = one_route_project("verb-case-mixed", meth("M0", "GET", "/a/{id}", [prm("id", "path", "string")], "Item"))
+    p["controllers"][0]["methods"] += [meth("M1", "Delete", "/a/{id}", [prm("id", "path", "string")], None),
+                                       meth("M2", "POST", "/a", [prm("it", "body", "Item")], "Item"),
+                                       meth("M3", "put", "/a", [prm("it", "body", "Item")], "Item"),
+                                       meth("M4", "pATCH", "/a", [prm("it", "body", "Item", pointer=True)], "string")]
+    out.append(("borderline:verb-case-mixed", p, None))
+    return out
+
+
+# ------------------------------------------------------------------ the configured package
+#
+# routesConfig.packageName is the user's choice: the routes file is generated INTO a directory of the user's
+# project, next to hand-written files of that package.  Any Go identifier is a package name (upper-case letters
+# and underscores included; the lower-case convention is a style rule).  An instance carries the name as the raw
+# override flags["routesConfig"]["packageName"] ("{engine}" is replaced by the engine name, servers.engine_config);
+# without it the name is servers' default routes<engine>.  Such an instance also gets a hand-written file of the
+# configured package in the output directory (present BEFORE gleece runs); it refers to the generated entry
+# point.  The file carries a build constraint so that the driver build of servers.build_servers - which cannot
+# attribute a "found packages a and b" diagnostic - does not see it; the directory is then built with the tag on.
+
+PACKAGE_NAMES = ["apiRoutes", "APIv2", "api_routes_{engine}", "Routes{engine}", "routesV1_{engine}", "_gen", "R", "apiV1_Gen",
+                 "r\u00e9seau", "Маршруты"]
+PACKAGE_NAMES_DEDICATED = ["apiRoutes", "api_routes_{engine}", "_gen", "Маршруты"]     # the others ride on other instances
+PACKAGE_NAMES_BORDERLINE = ["my-routes", "2routes", "type"]
+# `"packageName": "_"`: HEAD exits 0 and writes `package _`, which parses but is no package ("invalid package name _").
+# The shape is generated only when a known finding of this class is listed (known_findings.json / VERIF_KNOWN_EXTRA)
+BLANK_PACKAGE_CLASS = "blank-package-name-accepted"
+HAND_TAG = "verifhand"
+HAND_FILE = "zz_handwritten.go"
+GO_KEYWORDS = {"break", "case", "chan", "const", "continue", "default", "defer", "else", "fallthrough", "for", "func", "go",
+               "goto", "if", "import", "interface", "map", "package", "range", "return", "select", "struct", "switch", "type",
+               "var"}
+
+
+def configured_package(fl, engine):
+    """The package the routes file of this (flags, engine) is configured to be in."""
+    v = ((fl or {}).get("routesConfig") or {}).get("packageName")
+    if v is None:
+        return "routes" + engine
+    return v.replace("{engine}", engine) or "routes"      # an empty name means gleece's default
+
+
+def is_package_name(name):
+    return bool(re.match(r"^[^\W\d]\w*$", name)) and name != "_" and name not in GO_KEYWORDS
+
+
+def has_hand_file(fl):
+    return ((fl or {}).get("routesConfig") or {}).get("packageName") is not None
+
+
+def with_package(fl, pattern):
+    fl = copy.deepcopy(fl or {})
+    fl.setdefault("routesConfig", {})["packageName"] = pattern
+    return fl
+
+
+def hand_written_source(pkg):
+    return ("//go:build %s\n\npackage %s\n\n// hand-written code of the user's package: it refers to the generated "
+            "entry point\nvar Mount = RegisterRoutes\n" % (HAND_TAG, pkg))
+
+
+def package_name_instances(prng, blank=False):
+    """(label, project, flags, expectation): small projects under package-name shapes.  A name that is no Go
+    package name is borderline (refused and nothing written, or whatever is written compiles)."""
+    out = []
+    for i, pat in enumerate(PACKAGE_NAMES_DEDICATED + PACKAGE_NAMES_BORDERLINE + (["_"] if blank else [])):
+        m = meth("M0", "GET", "/a/{k}", [prm("k", "path", "ItemKind"), prm("n", "query", "int", pointer=True)],
+                 ["Item", "*Dto", "string"][i % 3])
+        lb = ("package-name:" if pat in PACKAGE_NAMES_DEDICATED else "borderline:package-name:") + pat
+        out.append((lb, one_route_project(lb, m), with_package(prng.choice(ALL_COMBOS), pat), None))
+    return out
+
+
+def build_hand_written(h, chunk_flags):
+    """Builds every output directory that holds a hand-written file with the file's build tag on.
+    Returns {(k, engine): True | compiler text}."""
+    todo = [(k, e) for k, fl in enumerate(chunk_flags) if has_hand_file(fl) for e in ENGINES
+            if is_package_name(configured_package(fl, e)) and h.routes_source(k, e) is not None]
+    out = {}
+    if not todo:
+        return out
+    cmd = ["go", "build", "-tags", HAND_TAG]
+    pb = run(cmd + ["./p%d/routes_%s" % ke for ke in todo], cwd=h.mod, env=GOENV, check=False, timeout=1500)
+    for ke in todo:
+        out[ke] = True
+    if pb.returncode != 0:      # attribute: one directory at a time (what built is cached)
+        for ke in todo:
+            if h.compiles[ke[0]][ke[1]] is not True:
+                out[ke] = "the generated file alone does not compile"
+                continue
+            p1 = run(cmd + ["./p%d/routes_%s" % ke], cwd=h.mod, env=GOENV, check=False, timeout=900)
+            if p1.returncode != 0:
+                out[ke] = (p1.stderr.decode(errors="replace") + p1.stdout.decode(errors="replace"))[-1200:]
     return out
 
 
@@ -693,6 +793,8 @@ def failure_classes(case):
             cls.append("routes-file-not-gofmt-clean")
         if f["parse_ok"] and not f["compiles"] and any(c["name"] in RESERVED for c in case["project"]["controllers"]):
             cls.append("controller-name-clashes-with-generated-identifier")
+        if f["parse_ok"] and not f["compiles"] and case["cfg_pkg"] == "_" and f["package"] == "_":
+            cls.append(BLANK_PACKAGE_CLASS)
     return cls
 
 
@@ -870,14 +972,39 @@ def main():
             instances.append((label, p, rng.choice(ALL_COMBOS), exp))
         for _ in range(2 if a.tier == "quick" else 20):
             instances.append(("random-grouped", random_grouped_project(grng), grng.choice(ALL_COMBOS), None))
+        # the configured package: its own stream again.  Dedicated small projects under every name shape, and a
+        # name (with a hand-written file of that package in the output directory) on a third of the instances above
+        prng = random.Random(seed * 1000003 + 17)
+        named = []
+        for (lb, p, fl, exp) in instances:
+            if lb != "corpus" and not lb.startswith("borderline:") and prng.random() < (1 / 3.0):
+                fl = with_package(fl, prng.choice(PACKAGE_NAMES))
+            named.append((lb, p, fl, exp))
+        instances = named + package_name_instances(prng, blank=any(
+            f.get("match", {}).get("kind") == BLANK_PACKAGE_CLASS for f in known))
     instances = [(lb, with_groups(p), fl, exp) for (lb, p, fl, exp) in instances]
 
     cases, timings = [], []
     BATCH = 32
     for lo in range(0, len(instances), BATCH):
         chunk = instances[lo:lo + BATCH]
-        h = servers.build_servers(PROP, [it[1] for it in chunk], flags=[it[2] for it in chunk],
-                                  prepare=render_custom_errors)
+
+        def prepare(h, k, root, chunk=chunk):
+            render_custom_errors(h, k, root)
+            fl = chunk[k][2]
+            if has_hand_file(fl):       # hand-written code of the configured package, there before gleece runs
+                for e in ENGINES:
+                    pkg = configured_package(fl, e)
+                    if is_package_name(pkg):
+                        d = os.path.join(root, "routes_" + e)
+                        os.makedirs(d, exist_ok=True)
+                        with open(os.path.join(d, HAND_FILE), "w", encoding="utf-8") as f:
+                            f.write(hand_written_source(pkg))
+        h = servers.build_servers(PROP, [it[1] for it in chunk], flags=[it[2] for it in chunk], prepare=prepare)
+        t_hand = time.time()
+        hand = build_hand_written(h, [it[2] for it in chunk])
+        h.timings["hand_written_dirs"] = len(hand)
+        h.timings["hand_written_build_s"] = round(time.time() - t_hand, 2)
         timings.append(h.timings)
         facts = implrun("gofile", [{"path": h.routes_path(k, e)} for k in range(len(chunk)) for e in ENGINES])
         j = 0
@@ -890,7 +1017,9 @@ def main():
                 j += 1
                 fobs = None
                 if f["exists"]:
-                    fobs = dict(f, compiles=(h.compiles[k][e] is True))
+                    # "compiles": the generated file in the user's module AND, where the output directory holds
+                    # hand-written code of the configured package, the directory as a whole
+                    fobs = dict(f, compiles=(h.compiles[k][e] is True and hand.get((k, e), True) is True))
                 seen = sorted([(i["path"], i["alias"]) for i in (f["imports"] if f["exists"] else [])
                                if i["alias"] and i["alias"] != "RequestAuth"
                                and i["path"].startswith(servers.MODNAME + "/")],   # the user's packages
@@ -898,9 +1027,12 @@ def main():
                 serial, serr = infer_serials(ctrls, seen)
                 cases.append({
                     "instance": lo + k, "label": label, "project": p, "flags": fl, "engine": e, "expect": exp,
-                    "cfg_pkg": "routes" + e, "gen_ok": g["exit"] == 0, "gen_exit": g["exit"], "wrote": g["wrote"],
+                    "cfg_pkg": configured_package(fl, e), "hand_written": hand.get((k, e)), "gen_ok": g["exit"] == 0, "gen_exit": g["exit"], "wrote": g["wrote"],
                     "gen_out": g["out"][-1200:], "file": fobs, "ctrls": ctrls, "seen": seen, "serial": serial,
-                    "serial_error": serr, "compiles": h.compiles[k][e],
+                    "serial_error": serr,
+                    "compiles": h.compiles[k][e] if h.compiles[k][e] is not True or hand.get((k, e), True) is True
+                    else "the output directory (generated file + hand-written file of package %s) does not build: %s" % (
+                        configured_package(fl, e), hand[(k, e)]),
                     "compare_imports": bool(g["exit"] == 0 and fobs and fobs["parse_ok"]),
                 })
         h.cleanup()
@@ -928,6 +1060,10 @@ def main():
     def replay_of(c, **kw):
         d = {"input": {"project": c["project"], "flags": c["flags"]}, "engine": c["engine"], "label": c["label"],
              "generation_exit": c["gen_exit"], "generation_output": c["gen_out"], "file_written": c["wrote"],
+             "configured_package": c["cfg_pkg"],
+             "hand_written_file": (None if c["hand_written"] is None else
+                                   {"name": HAND_FILE, "source": hand_written_source(c["cfg_pkg"]),
+                                    "directory_builds": c["hand_written"]}),
              "file_facts": {k: v for k, v in (c["file"] or {}).items() if k != "imports"},
              "compiler": c["compiles"] if c["compiles"] is not True else "ok"}
         d.update(kw)
@@ -935,7 +1071,8 @@ def main():
 
     reported = set()
     known_count = {}
-    for i in bad:
+    # small projects first: the reported inputs are the smallest failing ones
+    for i in sorted(bad, key=lambda i: (sum(len(cc["methods"]) for cc in cases[i]["project"]["controllers"]), i)):
         c = cases[i]
         classes = failure_classes(c)
         hits = [f for f in known if f.get("match", {}).get("kind") in classes]
@@ -1000,7 +1137,14 @@ def main():
                 "seeded random projects), and borderline projects the validators are expected to refuse (slice "
                 "typed form/header/path parameters, pointer path parameter, two bodies, body with form fields, struct "
                 "in query/form, an error type that embeds no error; also one such edit on seeded random projects) for "
-                "which either outcome is admitted: refused and no file written, or accepted and the file compiles. "
+                "which either outcome is admitted: refused and no file written, or accepted and the file compiles; "
+                "among them @Method verbs that differ from a supported verb only by letter case (get, Post, dELETE, also "
+                "next to conventionally spelled routes) and routesConfig.packageName values that are no Go package name "
+                "(my-routes, 2routes, type). The configured package is an input dimension: a third of the instances and "
+                "dedicated small projects carry a packageName with upper-case letters, underscores, a leading underscore "
+                "or non-ASCII letters, and a hand-written file of that package that refers to RegisterRoutes lies in the "
+                "output directory before gleece runs; the package clause must equal the configured name and the directory "
+                "(generated + hand-written file) must build. "
                 "distinct_nontrivial = distinct (project, flags, engine) whose file parsed and "
                 "compiled and whose project has at least one route",
         "samples": [{"label": sample["label"], "flags": sample["flags"], "engine": sample["engine"],
@@ -1039,6 +1183,11 @@ def main():
                         any(n >= 3 for n in group_shape(m)[:-1]) for cc in c["project"]["controllers"] for m in cc["methods"])),
             },
             # projects HEAD's validators are expected to refuse: what gleece did with them, per engine run
+            "configured_package_names": {nm: sum(1 for c in cases if c["cfg_pkg"] == nm)
+                                         for nm in sorted(set(c["cfg_pkg"] for c in cases if has_hand_file(c["flags"])))},
+            "directories_with_hand_written_file": {
+                "built": sum(1 for c in cases if c["hand_written"] is True),
+                "failed": sum(1 for c in cases if c["hand_written"] not in (None, True))},
             "borderline": {lb: {"refused": sum(1 for c in cases if c["label"] == lb and not c["gen_ok"]),
                                 "accepted_and_compiled": sum(1 for c in cases if c["label"] == lb and c["gen_ok"]
                                                              and c["file"] and c["file"]["compiles"])}
